@@ -149,7 +149,7 @@ def gen_flag(rng, cols, allow_unknown=False):
     if r < 0.7:
         return False
     sub = [c for c in cols if rng.random() < 0.6]
-    if allow_unknown and rng.random() < 0.1:
+    if allow_unknown and rng.random() < 0.25:
         sub.append('nope')
     if rng.random() < 0.5:
         rng.shuffle(sub)        # a selection names columns; the order they are named in means nothing
@@ -230,7 +230,7 @@ def spec(adf, aref, opts, level):
         elif not types_match_py(D[c][1], R[c][1], level):
             reasons.append('type ' + c)
     for c in opts['extra']:
-        if c not in R:
+        if c in D and c not in R:          # a listed column counts as extra only if the actual frame has it
             reasons.append('extra ' + c)
     if opts['order'] is not None and not any(r.startswith('missing') for r in reasons):
         o1 = [c for c in dn if c in opts['order'] and c in R]
@@ -328,7 +328,7 @@ def run(ctx):
         level = rng.choice(LEVELS)
         rcols, acols = list(ref), list(act)
         flags = {'check_data': gen_flag(rng, rcols), 'check_types': gen_flag(rng, rcols),
-                 'check_order': gen_flag(rng, rcols), 'check_extra_cols': gen_flag(rng, acols)}
+                 'check_order': gen_flag(rng, rcols), 'check_extra_cols': gen_flag(rng, acols, allow_unknown=True)}
         case = {'ref': ref.to_dict('list').__repr__()[:1500], 'ref_dtypes': {name_key(c): str(ref[c].dtype) for c in ref},
                 'mutation': kind, 'actual': act.to_dict('list').__repr__()[:1500],
                 'actual_dtypes': {name_key(c): str(act[c].dtype) for c in act},
@@ -411,6 +411,12 @@ def run(ctx):
                     if 'key' in act and act['key'].is_unique:
                         sh = act.sample(frac=1.0, random_state=rng.randint(0, 99))
                         rt.assertDataFramesEqual(sh, ref.copy(), precision=precision, sortby=['key'])
+                    elif 'key' not in act and 'key' in ref:
+                        # the sort column is missing from the actual frame: an assertion failure, not an error
+                        want_same = False
+                        ctx.bump('sortby_column_missing')
+                        rt.assertDataFramesEqual(act.copy(), ref.copy(), precision=precision, sortby=['key'],
+                                                 check_types=rng.choice([None, False]))
                     else:
                         continue
                 elif entry == 'equal-cond':
